@@ -38,6 +38,12 @@ func die(format string, a ...interface{}) {
 }
 
 func main() {
+	if exe, err := os.Executable(); err == nil {
+		// <verif>/bin/vcheck: work on the tree the binary was built from
+		if d := filepath.Dir(filepath.Dir(exe)); filepath.Base(filepath.Dir(exe)) == "bin" {
+			verifDir = d
+		}
+	}
 	if v := os.Getenv("VERIF_DIR"); v != "" {
 		verifDir = v
 	}
